@@ -706,7 +706,7 @@ cannot convert calendric system internally");
 		}
 		rc = 1;
 		goto out;
-	} else if (dt_sandwich_only_t_p(clo.fst) && clo.ite->dv == 0) {
+	} else if (dt_sandwich_only_t_p(clo.fst) && argi->nargs < 3U) {
 		*clo.ite = tseq_guess_ite(clo.fst.t, clo.lst.t);
 	}
 
